@@ -140,19 +140,19 @@ def parseDecl (j : Json) : Except String Expand.TestDecl := do
   let decos ← (← getArrD j "decos").mapM parseDeco
   pure (decorate (← getStr j "attr") (← getNat j "rank") args decos)
 
-def parseKind (j : Json) : Except String Inject.AttrKind := do
+def parseKind (j : Json) : Except String SuiteObj.AttrKind := do
   match ← getStr j "k" with
   | "inject" => pure (.inject (← getOptStr j "name"))
   | "method" => pure (.method (← (← getArrD j "params").mapM (fun x => x.getStr?)))
   | "property" => pure .property
   | _ => pure .other
 
-def parseLayer (j : Json) : Except String Inject.Layer := do
+def parseLayer (j : Json) : Except String SuiteObj.Layer := do
   (← j.getArr?).toList.mapM (fun kv => do
     let (k, v) ← parsePair kv
     pure (← k.getStr?, ← parseKind v))
 
-def parseObj (j : Json) : Except String Inject.Obj := do
+def parseObj (j : Json) : Except String SuiteObj.Obj := do
   match ← (← getArrD j "layers").mapM parseLayer with
   | [] => pure {}
   | inst :: mro => pure { inst := inst, mro := mro }
@@ -207,7 +207,7 @@ def jHooks (h : Expand.SuiteHead) : Json :=
 partial def jSuite : Expand.Suite → Json
   | .mk h ts ss =>
     Json.mkObj ([("name", .str h.name), ("desc", .str h.desc), ("rank", Json.num h.rank), ("disabled", jDisabled h.disabled),
-                 ("injected", Json.arr (h.injected.map (fun (f, a) => Json.arr #[.str f, .str a])).toArray), ("hooks", jHooks h),
+                 ("injected", Json.arr (h.injected.map (fun (f, as) => Json.arr #[.str f, jStrs as])).toArray), ("hooks", jHooks h),
                  ("tests", Json.arr (ts.map jTest).toArray), ("suites", Json.arr (ss.map jSuite).toArray)] ++ jMeta h.md)
 
 /-- the run-level project syntax, scripts left out (harness/props/_declrun.py `project_shape`) -/
